@@ -395,7 +395,17 @@ def _explanation(prop, tier, root, claimed, nfun, total, discharged, nfailed, nu
 
 def _claimed_level(prop):
     p2 = os.path.join(VERIF, "levels.d", "%s.json" % prop)
-    if os.path.exists(p2):
+    try:
+        with open(os.path.join(VERIF, "claimed.json")) as f:
+            released = set(json.load(f))
+    except Exception:
+        released = set()
+    base = {}
+    pb = os.path.join(VERIF, "levels.json")
+    if os.path.exists(pb):
+        with open(pb) as f:
+            base = json.load(f)
+    if os.path.exists(p2) and (prop in released or prop not in base or os.environ.get("PYVC_DEV")):
         with open(p2) as f:
             return json.load(f)
     p = os.path.join(VERIF, "levels.json")
